@@ -343,6 +343,7 @@ func defectsOf(rng *rand.Rand, s c13Shape) []c13Case {
 		add("domain-too-long", s.scheme+"://"+long+dot+s.port)
 	case "ipv4":
 		add("wildcard-before-ip", s.scheme+"://*."+s.host+s.port)
+		add("ip-bracketed-v4", s.scheme+"://["+s.host+"]"+s.port) // brackets are for IPv6 only (finding F4)
 		oct := strings.Split(s.host, ".")
 		add("ip-noncanonical", s.scheme+"://"+oct[0]+"."+oct[1]+"."+oct[2]+".0"+oct[3]+s.port)
 		add("ip-noncanonical", s.scheme+"://0x"+strconv.FormatInt(int64(rng.IntN(256)), 16)+"."+oct[1]+"."+oct[2]+"."+oct[3]+s.port)
